@@ -424,8 +424,8 @@ pub fn expect(cap: usize, len: usize, act: &Act) -> Exp {
         IterDebug(kind, s) => {
             let rest = script_trace(&pre, s, &mut trace);
             let rest: Vec<Tag> = rest.into_iter().collect();
-            trace.push(Obs::Str(debug_string(&rest, 0)));
-            if kind == 2 {
+            trace.push(Obs::Str(debug_string(&rest, kind / 4)));
+            if kind % 4 == 2 {
                 return Exp {
                     panics: false,
                     trace,
